@@ -1,7 +1,7 @@
 SPECIFICATION Spec
 CONSTANTS
   Kind = "des"
-  MaxCalls = 4
+  MaxCalls = 3
   Level = 2
   FragMode = "join"
   Bug = "none"
